@@ -11,8 +11,10 @@ The model of this engine is REGENERATED FROM THE GO SOURCE on every run:
                                triples of the node's activities with deadlock / panic detection and invariants at
                                quiescence; goroutine-leak matrix (C13); placement replay through decorated interfaces
 
-`C16_discipline_full` is false on the current tree: every row of knownRaces is returned as a failure with the signature
-C16/race/<Type.field>/<methodA>|<methodB> (found_input = the race detector named the row).  See ENGINE_CONTRACT.md.
+`C16_discipline` (module Conc.Props.RaceFull) is the full statement; it checks on the current tree (knownRaces = []).
+When a source change introduces unprotected pairs the extractor lists them in knownRaces, RaceFull stops checking, and
+every row of knownRaces is returned as a failure with the signature C16/race/<Type.field>/<methodA>|<methodB>
+(found_input = the race detector named the row).  See ENGINE_CONTRACT.md.
 """
 import json
 import re
@@ -29,6 +31,8 @@ GROUPS = {
     "Race": {"module": "Conc.Props.Race", "audit": "AuditRace.lean", "theorems": [
         "lockset_race_free", "static_race_free", "C16_tables_complete", "C16_discipline_partial",
         "C16_discipline_counterexamples", "C16_race_free_protected", "C16_no_race_outside_list"]},
+    "RaceFull": {"module": "Conc.Props.RaceFull", "audit": "AuditRaceFull.lean", "theorems": [
+        "C16_discipline", "C16_race_free", "C16_no_race"]},
     "Order": {"module": "Conc.Props.Order", "audit": "AuditOrder.lean", "theorems": [
         "acyclic_no_deadlock", "C16_lock_order_table", "C16_lock_order"]},
     "Placement": {"module": "Conc.Props.Placement", "audit": "AuditPlacement.lean", "theorems": [
@@ -37,7 +41,7 @@ GROUPS = {
         "reach_in_closed", "noLeak_sound", "C13_no_leak", "C13_no_leak_reach", "fetch_old_leaks",
         "fetch_return_without_buffer_leaks", "fetch_two_slots_no_leak"]},
 }
-C16_GROUPS = ["Race", "Order", "Placement"]
+C16_GROUPS = ["Race", "RaceFull", "Order", "Placement"]
 
 ASSUMPTIONS = [
     "the extractor ruextract-conc is TRUSTED and SYNTACTIC (go/ast only, six anchored files + main.go/node.go/host.go/"
